@@ -127,9 +127,24 @@ def call_text(case, ci):
     return "%s(%s)" % (c["fn"], ",".join(str(a) for a in c["args"]))
 
 
+def pack(cases):
+    """TRACE_FILE content: the distinct modules once, the cases naming them by (1-based) index."""
+    table, index, slim = [], {}, []
+    for c in cases:
+        refs = []
+        for m in c["mods"]:
+            if id(m) not in index:
+                table.append(m)
+                index[id(m)] = len(table)
+            refs.append(index[id(m)])
+        d = {k: v for k, v in c.items() if not k.startswith("_")}
+        d["mods"] = refs
+        slim.append(d)
+    return {"mods": table, "cases": slim}
+
+
 def run_wasm(ctx, cases, cfg=RUN_CFG, label="wasm traces", workers=8, nxt=None):
-    slim = [{k: v for k, v in c.items() if not k.startswith("_")} for c in cases]
-    path = ctx.trace_file(slim)
+    path = ctx.trace_file(pack(cases))
     res = ctx.tlc("Wasm_Run", cfg if nxt is None else cfg.replace("NEXT Next", "NEXT " + nxt), label=label,
                   env={"TRACE_FILE": path}, continue_=True, workers=workers, heap="8g")
     os.unlink(path)
@@ -173,11 +188,11 @@ def corpus(ctx):
     rng = ctx.rng
     thorough = ctx.tier == "thorough"
     items = wasmgen.directed(random.Random(rng.randrange(1 << 30)), thorough)
-    nrand = 160 if thorough else 8
+    nrand = 160 if thorough else 6
     for k in range(nrand):
         seed = rng.randrange(1 << 30)
-        items.append(wasmgen.random_item(random.Random(seed), "rand%d" % seed, size=1.0 + (k % 3) * 0.5,
-                                         imports=(k % 5 == 4)))
+        items.append(wasmgen.random_item(random.Random(seed), "rand%d" % seed, size=(1.0 + (k % 3) * 0.5) if thorough else 1.0,
+                                         imports=(k % 4 == 3), ncalls=3 if thorough else 2, one_trace=True))
     for k, it in enumerate(items):
         it["form"] = "wat" if (not it["key"].startswith("rand") or k % 2 == 0) else "bin"
         it["wat"] = wasmgen.render_wat(it["mod"])
@@ -247,19 +262,20 @@ def sanity_model(ctx, wide=None):
     out = os.path.join(ctx.workdir, "wasm_mc_cases.json")
     wide = (ctx.tier == "thorough") if wide is None else wide
     gen = ctx.tlc("Wasm_MCGen", MCGEN_CFG % ("TRUE" if wide else "FALSE"), label="Wasm_MC cases (TLA+)",
-                  env={"MC_OUT": out}, workers=1, coverage=False)
+                  env={"MC_OUT": out, "EQ_OUT": "-"}, workers=1, coverage=False)
     if gen.errors or not os.path.exists(out):
         raise MachineryError("Wasm_MCGen failed: %s" % (gen.errors or gen.raw[-800:]))
     res = ctx.tlc("Wasm_MC", MC_CFG, label="Wasm semantics sanity", env={"TRACE_FILE": out}, workers=8, continue_=True)
     os.unlink(out)
     for e in res.errors:
         raise MachineryError("Wasm.tla sanity model fails: %s\n%s\n%s" % (e, e.text[:600], str(e.last)[:1500]))
-    need = {"Const", "Binary", "Compare", "Unary", "Convert", "Drop", "Select", "LocalGet", "LocalSet", "GlobalGet",
+    need = {"Init", "Const", "Binary", "Compare", "Unary", "Convert", "Drop", "Select", "LocalGet", "LocalSet", "GlobalGet",
             "GlobalSet", "Load", "Store", "MemorySize", "MemoryGrow", "Nop", "Unreachable", "Block", "Loop", "If", "Else",
             "End", "FuncEnd", "Br", "BrIf", "BrTable", "Return", "Call", "CallIndirect", "NotModelled", "Exhaust",
             "NextCall", "NextModule", "PickCase"}
     cov = core.tlcmod.action_coverage(res)
     missing = sorted(a for a in need if not cov.get("Wasm." + a))
+    ctx.cov["mc_action_coverage"] = {k: v for k, v in sorted(cov.items())}
     if cov and missing:
         raise MachineryError("Wasm_MC does not take the actions %s" % missing)
     return res
@@ -279,8 +295,6 @@ class Engine:
         ctx.assume("ppci's documented trap exceptions are WasmTrapException and runtime.Unreachable; any other "
                    "exception, a crash of the process or a silent result is not a trap")
         ctx.assume("memory.grow inside the declared maximum succeeds (the specification allows it to fail)")
-        if ctx.only is None:
-            sanity_model(ctx)
         items = corpus(ctx)
         if ctx.only is not None:
             want = ctx.only["key"].split(":")[2].split("/")[0]
@@ -288,14 +302,32 @@ class Engine:
         for it in items[:3]:
             ctx.sample({"module": it["key"], "traces": len(it["traces"]), "first_calls": it["traces"][0][:3]})
         ctx.cov["modules"] = len(items)
+        targets = [t for t in ("python", "native") if ctx.only is None or ctx.only["key"].split(":")[1] == t]
+        # ppci runs in subprocesses; they are collected in the background while TLC checks the semantics itself
+        import threading
+
+        obs, failure = {}, []
+
+        def collect():
+            try:
+                for target in targets:
+                    o = {}
+                    for form in ("wat", "bin"):
+                        sub = [it for it in items if it["form"] == form]
+                        if sub:
+                            o.update(wasm_runner.run_ppci([make_job(it, form) for it in sub], target,
+                                                          nproc=6 if target == "native" else 4))
+                    obs[target] = o
+            except BaseException as e:   # reported in the main thread
+                failure.append(e)
+
+        th = threading.Thread(target=collect, daemon=True)
+        th.start()
+        if ctx.only is None:
+            sanity_model(ctx)
         suspects = node_suspects(ctx, items) if ctx.tier == "thorough" else set()
-        for target in ("python", "native"):
-            if ctx.only is not None and ctx.only["key"].split(":")[1] != target:
-                continue
-            obs = {}
-            for form in ("wat", "bin"):
-                sub = [it for it in items if it["form"] == form]
-                if sub:
-                    obs.update(wasm_runner.run_ppci([make_job(it, form) for it in sub], target,
-                                                    nproc=6 if target == "native" else 4))
-            judge_target(ctx, items, target, obs, suspects)
+        th.join()
+        if failure:
+            raise MachineryError("running ppci failed: %r" % failure[0])
+        for target in targets:
+            judge_target(ctx, items, target, obs[target], suspects)
